@@ -338,13 +338,13 @@ func ruleTypeAsserts(c *Ctx, r *Report, rule string, reach map[*ssa.Function]boo
 			facts := splitFacts(c.factsAt(body, ta))
 			inner, _ := stripParens(ta.X).(*ast.CallExpr)
 			switch {
-			case inner != nil && isClosureCall(inner, "pop") && vm != nil:
+			case inner != nil && vm != nil && vm.callRole(c, inner) == "pop":
 				// which pop of the statement is it? (left to right)
 				stmt := enclosingStmt(pm, ta)
 				idx := -1
 				k := 0
 				ast.Inspect(stmt, func(y ast.Node) bool {
-					if call, ok := y.(*ast.CallExpr); ok && isClosureCall(call, "pop") {
+					if call, ok := y.(*ast.CallExpr); ok && vm.callRole(c, call) == "pop" {
 						if call == inner {
 							idx = k
 						}
@@ -356,7 +356,7 @@ func ruleTypeAsserts(c *Ctx, r *Report, rule string, reach map[*ssa.Function]boo
 				ok := false
 				for _, ft := range facts {
 					if call, isC := ft.Cond.(*ast.CallExpr); isC && ft.Pos && c.calleeName(call) == pred && len(call.Args) == 1 {
-						if pk, isP := stripParens(call.Args[0]).(*ast.CallExpr); isP && isClosureCall(pk, "peek") {
+						if pk, isP := stripParens(call.Args[0]).(*ast.CallExpr); isP && vm.callRole(c, pk) == "peek" {
 							if d, isD := c.intConst(pk.Args[0]); isD && int(d) == idx {
 								ok = true
 							}
@@ -364,7 +364,7 @@ func ruleTypeAsserts(c *Ctx, r *Report, rule string, reach map[*ssa.Function]boo
 					}
 				}
 				r.check(ok && pred != "", rule, key, fmt.Sprintf("%s(peek(%d)) holds in the arm", pred, idx), fmt.Sprintf("pop().(%s) is not covered by %s(peek(%d)) in the arm's condition: a value of another type panics here", tname, pred, idx), pos)
-			case inner != nil && isClosureCall(inner, "readConst") && vm != nil:
+			case inner != nil && vm != nil && vm.callRole(c, inner) == "readConst":
 				// operand index within the arm
 				op := ""
 				for name, arm := range vm.Arms {
@@ -375,7 +375,7 @@ func ruleTypeAsserts(c *Ctx, r *Report, rule string, reach map[*ssa.Function]boo
 				k, idx := 0, -1
 				if op != "" {
 					ast.Inspect(vm.Arms[op].Clause, func(y ast.Node) bool {
-						if call, ok := y.(*ast.CallExpr); ok && (isClosureCall(call, "readConst") || isClosureCall(call, "readUvarint") || isClosureCall(call, "readByte") || isClosureCall(call, "readU16")) {
+						if call, ok := y.(*ast.CallExpr); ok && strings.HasPrefix(vm.callRole(c, call), "read") && vm.callRole(c, call) != "readOp" {
 							if call == inner {
 								idx = k
 							}
@@ -655,7 +655,7 @@ func ruleLexerProgress(c *Ctx, r *Report, rule string) {
 			}
 			switch x := rs.Results[0].(type) {
 			case *ast.Ident:
-				if x.Name != "nil" && sf[x.Name] == nil {
+				if x.Name != "nil" && sf[c.identFn(x)] == nil {
 					bad = name + " returns " + x.Name
 				}
 			case *ast.CallExpr:
